@@ -115,6 +115,48 @@ func judgeC12(hst Hist) *h.Verdict {
 			}
 			continue
 		}
+		if op.K == "respell" {
+			// a recharge whose rating group is written with leading zeros, for any rating group number: the
+			// notification names the number the decimal digits denote (or the spelling is rejected, without effect)
+			if !verifapi.Snapshot(st.supi).Exists {
+				continue
+			}
+			env.Notifications()
+			path := fmt.Sprintf("%s/recharging/%s_%s%d", prefix, st.supi, strings.Repeat("0", op.Lead), op.RG)
+			before := worldDigest(w)
+			code, rb, _ := doHTTP("PUT", path, nil, nil)
+			var notes []stackenv.Notification
+			for i := 0; i < 20 && len(notes) == 0; i++ {
+				notes = append(notes, env.Notifications()...)
+				if len(notes) == 0 && code != 204 {
+					break
+				}
+				time.Sleep(5 * time.Millisecond)
+			}
+			time.Sleep(2 * time.Millisecond)
+			notes = append(notes, env.Notifications()...)
+			v.NT("recharge-spelled")
+			switch {
+			case code == 204:
+				if len(notes) != 1 || len(notes[0].Body.ReauthorizationDetails) != 1 || notes[0].Body.ReauthorizationDetails[0].RatingGroup != op.RG {
+					raw := ""
+					if len(notes) > 0 {
+						raw = notes[0].Raw
+					}
+					return v.Failf("recharge-notify-body/spelled", "step %d: PUT %s answered 204 and sent %d notifications (%s), want exactly one naming rating group %d", step, path, len(notes), raw, op.RG)
+				}
+				if notes[0].Path != st.notify {
+					return v.Failf("recharge-notify-uri", "step %d: notification went to %s, the subscriber's consumer last registered %s", step, notes[0].Path, st.notify)
+				}
+			case code >= 400 && code < 500:
+				if len(notes) != 0 || worldDigest(w) != before {
+					return v.Failf("rejection-has-effect/recharge-spelled", "step %d: PUT %s answered %d, yet %d notifications were sent or state changed", step, path, code, len(notes))
+				}
+			default:
+				return v.Failf("recharge-status", "step %d: PUT %s answered %d %.200s", step, path, code, rb)
+			}
+			continue
+		}
 		pre := verifapi.Snapshot(st.supi)
 		env.Notifications()
 		res := w.Exec(op)
@@ -215,6 +257,9 @@ func genC12(t *rapid.T) Hist {
 				UUs: []UU{{RG: int32(rapid.IntRange(1, 3).Draw(t, "brg")), Req: int32(rapid.IntRange(0, 500).Draw(t, "breq")),
 					Conts: []Cont{{Q: "online", Tot: int32(rapid.IntRange(0, 300).Draw(t, "btot")), Pm: -1}}}}}
 			ops = append(ops, b)
+		}
+		if rapid.IntRange(0, 5).Draw(t, "respell") == 0 {
+			ops = append(ops, Op{K: "respell", S: op.S, RG: int32(rapid.SampledFrom([]int{1, 2, 3, 8, 9, 10, 21, 64, 100, 777}).Draw(t, "srg")), Lead: rapid.SampledFrom([]int{0, 1, 1, 2, 3}).Draw(t, "lead")})
 		}
 	}
 	hst.Ops = ops
